@@ -239,9 +239,6 @@ def check(prop: str, tier: str, batch_seed: int, repo: str, workers: int = 16,
                     key, {"count": 0, "run_seed": v.get("run_seed", 0), "index": v.get("index", 0),
                           "v": v, "trace": v.get("trace"), "pool": v.get("pool", 0)})["count"] += 1
 
-        if total.get("cross_conflicts"):
-            raise HarnessError("outcomes of identical (operation, flag) pairs differ between workers with "
-                               f"identical knobs: {total['cross_conflicts'][:5]}")
         # determinism self-test: the same seeds in a fresh interpreter, other hash seed
         dets = {"checked": 0, "mismatch": []}
         if M.get("selftest_runs", 5) > 0 and total.get("digest_by_index"):
@@ -280,9 +277,12 @@ def check(prop: str, tier: str, batch_seed: int, repo: str, workers: int = 16,
         if focus:
             new_viols.sort(key=lambda kv: (focus not in kv[0], kv[0]))
         replays: List[str] = []
+        unconfirmed: List[str] = []
         reported_keys = set()
         max_report = M.get("max_reports", 6)
-        for key, ent in new_viols[:max_report]:
+        for key, ent in new_viols[:max_report + 4]:
+            if len(replays) >= max_report:
+                break
             pi = ent["pool"]
             if ent.get("trace") is None:
                 raise HarnessError(f"violation {key} has no trace")
@@ -290,7 +290,15 @@ def check(prop: str, tier: str, batch_seed: int, repo: str, workers: int = 16,
                                           tcfg.get("shrink_wall", 600.0), tier, batch_seed).result(
                                               timeout=tcfg.get("shrink_wall", 600.0) + 30)
             if not mini.get("shrunk"):
-                raise HarnessError(f"violation {key} could not be reproduced for minimisation: {mini.get('note')}")
+                # the worker that found it cannot reproduce it any more: the violation depends on process
+                # history (e.g. a cache poisoned by the run itself). The fresh-interpreter replay below is
+                # the authority; the trace is reported unminimised.
+                if ent["trace"].get("kind") == "cross-unresolved":
+                    raise HarnessError(f"violation {key} could not be resolved: {mini.get('note')}")
+                print(f"[verif] note: {key} did not reproduce in its (used) worker; replaying the unminimised "
+                      f"trace in a fresh interpreter", flush=True)
+                mini = {"trace": ent["trace"], "violation": ent["v"], "size_before": None, "size_after": None,
+                        "digest": None, "key": key}
             key = mini.get("key", key)
             if key in reported_keys:
                 continue
@@ -298,7 +306,9 @@ def check(prop: str, tier: str, batch_seed: int, repo: str, workers: int = 16,
             path = write_replay(prop, meta, ent, mini, key, batch_seed, tier, pool_knobs[pi], repo)
             rc, out = replay_in_fresh_process(path, repo)
             if rc != EXIT_VIOLATION:
-                raise HarnessError(f"violation {key} did not replay from {path} (rc={rc}):\n{out[-3000:]}")
+                # never reported as VIOLATION; a harness failure unless a confirmed violation explains it
+                unconfirmed.append(f"violation {key} did not replay from {path} (rc={rc}):\n{out[-1500:]}")
+                continue
             replays.append(path)
             print(f"[verif] violation oracle={ent['v']['oracle']} sig={json.dumps(ent['v'].get('sig', {}), sort_keys=True)} "
                   f"occurrences={ent['count']} first_run_index={ent['index']} "
@@ -306,10 +316,24 @@ def check(prop: str, tier: str, batch_seed: int, repo: str, workers: int = 16,
             print(f"[verif]   detail: {json.dumps(ent['v'].get('detail'))[:600]}", flush=True)
             print(f"VIOLATION property={prop} replay={path}", flush=True)
             status = EXIT_VIOLATION
+        if unconfirmed:
+            if status != EXIT_VIOLATION:
+                raise HarnessError(unconfirmed[0])
+            print(f"[verif] note: {len(unconfirmed)} further violation class(es) did not replay in a fresh interpreter "
+                  f"(outcome depends on process history) and are not reported", flush=True)
         if len(new_viols) > max_report:
             print(f"[verif] {len(new_viols) - max_report} further violation classes not minimised:", flush=True)
             for k, e in new_viols[max_report:max_report + 300]:
                 print(f"[verif]   class {k} occurrences={e['count']} first_run_index={e['index']}", flush=True)
+        if total.get("cross_conflicts"):
+            # identical (operation, flag) pairs with different outcomes in workers with identical knobs:
+            # outcomes depend on process history. If a violation with a replayable trace explains it, that
+            # is the verdict; unexplained, it is a harness-level failure (never exit 0).
+            print(f"[verif] note: {len(total['cross_conflicts'])} (operation, flag) outcomes differ between "
+                  f"workers with identical knobs (history dependence across runs)", flush=True)
+            if not new_viols and not known_hits:
+                raise HarnessError("outcomes depend on process history but no run reported a violation: "
+                                   f"{total['cross_conflicts'][:5]}")
         total["new_violation_classes"] = len(new_viols)
         total["known_hits"] = {known[n]["what"]: c for n, c in known_hits.items()}
     except HarnessError as e:
